@@ -130,6 +130,81 @@ func lengthRewrites(data []byte, p pgpref.Packet) (out [][]byte, desc []string) 
 	return
 }
 
+// nestedRewrites: rewrites of length fields INSIDE a packet body (the analogue of the packet-length
+// rewrites one level down): for version 4 signature packets each subpacket area cut at every
+// position and ended with the lead octets of a 2- or 5-octet subpacket length; for signature and
+// session-key packets every MPI bit count set to {0,1,7,8,9,2^16-1}. The packet header is
+// re-encoded so that the framing stays consistent.
+func nestedRewrites(data []byte, p pgpref.Packet) (out [][]byte, desc []string) {
+	head, tail := data[:p.Off], data[p.End:]
+	emit := func(body []byte, d string) {
+		hdr := []byte{0xC0 | byte(p.Tag)}
+		for _, o := range []int{1, 2, 5} {
+			if enc, ok := pgpref.EncodeNewLength(uint32(len(body)), o); ok {
+				hdr = append(hdr, enc...)
+				break
+			}
+		}
+		v := append(append(append(append([]byte{}, head...), hdr...), body...), tail...)
+		out = append(out, v)
+		desc = append(desc, d)
+	}
+	b := p.Body
+	var mpiAt []int
+	switch p.Tag {
+	case 2:
+		sg, err := pgpref.ParseSigV4(b)
+		if err != nil {
+			return
+		}
+		areas := [][2]int{{6, sg.HashedEnd}, {sg.HashedEnd + 2, sg.UnhashedEnd}} // [start,end) of the subpacket data; the 2-octet count precedes it
+		for ai, a := range areas {
+			for cut := a[0]; cut <= a[1]; cut++ {
+				for ti, t := range [][]byte{nil, {0xC0}, {0xFF}, {0xFF, 0, 0, 0}, {0xFF, 0, 0, 0, 1}, {0}} {
+					if cut == a[1] && ti == 0 {
+						continue
+					}
+					area := append(append([]byte{}, b[a[0]:cut]...), t...)
+					nb := append([]byte{}, b[:a[0]-2]...)
+					nb = append(nb, byte(len(area)>>8), byte(len(area)))
+					nb = append(nb, area...)
+					nb = append(nb, b[a[1]:]...)
+					emit(nb, fmt.Sprintf("subpacket area %d cut after %d octets and ended with % x", ai, cut-a[0], t))
+				}
+			}
+		}
+		for _, r := range sg.MPIValue {
+			mpiAt = append(mpiAt, r[0]-2)
+		}
+	case 1:
+		if len(b) < 12 {
+			return
+		}
+		for i := 10; i+2 <= len(b); {
+			mpiAt = append(mpiAt, i)
+			i += 2 + (int(b[i])<<8|int(b[i+1])+7)/8
+		}
+	default:
+		return
+	}
+	for mi, at := range mpiAt {
+		for _, bits := range []int{0, 1, 7, 8, 9, 0xFFFF} {
+			nb := append([]byte{}, b...)
+			nb[at], nb[at+1] = byte(bits>>8), byte(bits)
+			emit(nb, fmt.Sprintf("bit count of MPI %d set to %d", mi, bits))
+			// and with the value octets cut to what the new count announces
+			if n := (bits + 7) / 8; at+2+n <= len(b) {
+				old := (int(b[at])<<8 | int(b[at+1]) + 7) / 8
+				if at+2+old <= len(b) {
+					nb2 := append(append(append([]byte{}, nb[:at+2]...), b[at+2:at+2+n]...), b[at+2+old:]...)
+					emit(nb2, fmt.Sprintf("MPI %d shortened to %d bits", mi, bits))
+				}
+			}
+		}
+	}
+	return
+}
+
 func (e *env) mutations(seeds []seed) {
 	c := e.c
 	// unmutated seeds first: a panic here is a defect on well-formed input
@@ -187,6 +262,8 @@ func (e *env) mutations(seeds []seed) {
 				body = armoredBody[j.seed].Body
 			}
 			vars, descs := lengthRewrites(body, pkts[j.seed][j.off])
+			v2, d2 := nestedRewrites(body, pkts[j.seed][j.off])
+			vars, descs = append(vars, v2...), append(descs, d2...)
 			for vi, v := range vars {
 				m := v
 				if a := armoredBody[j.seed]; a != nil {
